@@ -57,7 +57,9 @@ def _uids(a):
     return tuple(t.uid for t in terms_of(a))
 
 
-def run_one(cs, mg, res):
+def run_one(cs, mg, res, fill=None):
+    """fill: None = symbolic leaves under the case's domain assumption; a number = every leaf element is that constant (the degenerate
+    points the gradient checks exclude: zeros, ties everywhere) - mutation and aliasing facts must hold there as well"""
     engine = eng_mod.Engine(skip_ties=True)
     engine.reset_fn = lib.reset_state
     env0 = gradcase.make_env(mg)
@@ -71,6 +73,10 @@ def run_one(cs, mg, res):
         owned = {}
         for ent in cs.get("leaves", []):
             owned[ent[0]] = gradcase.mk_leaf(ent[0], ent[1], ent[2] if len(ent) > 2 else "C")
+            if fill is not None:
+                flat = owned[ent[0]].reshape(-1) if owned[ent[0]].flags.c_contiguous else None
+                for idx in np.ndindex(*owned[ent[0]].shape):
+                    owned[ent[0]][idx] = Sym(fill)
         carr = {}
         for name, shape in cs.get("carrs", []):
             carr[name] = symarr(name, tuple(shape))
@@ -91,7 +97,7 @@ def run_one(cs, mg, res):
         snap_carr = {n: _uids(a) for n, a in carr.items() if n not in out_targets}
         snap_data = {n: _uids(t.data) for n, t in tens.items()}
         fnd = []
-        if cs.get("assume"):
+        if cs.get("assume") and fill is None:
             e2 = dict(env)
             e2.update(gradcase._assume_helpers(engine))
             exec(cs["assume"], e2)
@@ -156,8 +162,8 @@ def run_one(cs, mg, res):
     for p in engine.explore(body, max_paths=800, max_seconds=120):
         res["paths"] += 1
         if p.exc is not None:
-            if type(p.exc).__name__ == "NonReal":
-                continue
+            if type(p.exc).__name__ == "NonReal" or fill is not None:
+                continue  # outside the real semantics / the degenerate point is outside the operation's domain: no fact
             res["status"] = common.INCONCLUSIVE
             res["notes"].append("%s: %s: %s" % (cs["name"], type(p.exc).__name__, str(p.exc)[:200]))
             continue
@@ -181,7 +187,7 @@ def _same(a, b):
         return True
 
 
-def replay_source(cs):
+def replay_source(cs, fill=None):
     leaves = cs.get("leaves", [])
     return '''import sys, copy, itertools
 import numpy as np
@@ -193,11 +199,13 @@ from mygrad.nnet.losses import *
 np.seterr(all="ignore")
 rng = np.random.RandomState(11)
 CS = %r
+FILL = %r
 env = {"mg": mg, "np": np, "nnet": nnet}
 env.update({k: v for k, v in globals().items() if not k.startswith("_")})
 owned = {}; carr = {}
 for ent in CS.get("leaves", []):
     a = np.asarray(rng.rand(*ent[1]) * 0.5 + 0.25)
+    if FILL is not None: a = np.full(ent[1], float(FILL))
     if len(ent) > 2 and ent[2] == "F" and len(ent[1]) >= 2: a = np.asfortranarray(a)
     owned[ent[0]] = a
 for name, shape in CS.get("carrs", []):
@@ -255,7 +263,7 @@ except Exception as e:
     print("raised", type(e).__name__, e)
 print(bad)
 print('REPRODUCED' if bad else 'NOT-REPRODUCED'); sys.exit(1 if bad else 0)
-''' % ({k: v for k, v in cs.items() if k in ("name", "body", "leaves", "carrs", "setup")},)
+''' % ({k: v for k, v in cs.items() if k in ("name", "body", "leaves", "carrs", "setup")}, fill)
 
 
 def run_case(spec, tier):
@@ -264,14 +272,19 @@ def run_case(spec, tier):
     res["ops_checked"] = 0
     for cs in spec["c02"]:
         res["ops_checked"] += 1
+        f, fill = None, None
         try:
-            f = run_one(cs, mg, res)
+            for fill in (None, 0, 1):
+                f = run_one(cs, mg, res, fill=fill)
+                if f:
+                    break
         except eng_mod.Budget as e:
             res["status"] = common.INCONCLUSIVE
             res["notes"].append("%s: %s" % (cs["name"], e))
             continue
         if f:
-            path = common.write_replay(PROP, gradcase._safe(cs["name"]), replay_source(cs))
+            f = [("[all leaf elements = %s] " % fill if fill is not None else "") + x for x in f]
+            path = common.write_replay(PROP, gradcase._safe(cs["name"]), replay_source(cs, fill))
             ok, out = common.run_replay(path)
             if ok:
                 res["status"] = common.VIOLATION
